@@ -220,11 +220,11 @@ class FieldFamily:
     def gen(self, fn, rng, hint):
         optimized = "optimized_field_elements" in fn
         files = [optimized] if ("field_elements" in fn) else [False, True]
-        small2 = {7: [[1, 0], [2, 0], [4, 1]], 3: [[1, 0], [2, 1]], 11: [[1, 0]]}
+        small2 = {7: [[1, 0], [2, 0], [4, 1]], 3: [[1, 0], [2, 1]], 11: [[1, 0]], 2: [[1, 1]]}
         irr12 = {p: find_irreducible(p, 12, random.Random(5), 2) for p in (3, 7)}
         for opt in files:
             # prime fields
-            for p in (3, 7, 11, REAL["bn128"], REAL["bls12_381"]):
+            for p in (2, 3, 7, 11, REAL["bn128"], REAL["bls12_381"]):
                 xs = [0, 1, 2, p - 1, rng.randrange(p), rng.randrange(p)]
                 ks = [0, 1, -1, 2, p, 2 * p, -p, 3 * p, p + 1, p - 1, rng.randrange(p), -rng.randrange(10 ** 40), rng.randrange(p ** 3)]
                 es = [0, 1, 2, 3, p - 1, p, p + 1, 2 * (p - 1), 3 * (p - 1), p * p - 1, rng.randrange(p ** 2)]
@@ -248,6 +248,8 @@ class FieldFamily:
                                 arg = y if op == "binops" else (rng.choice([0, 1, 2, p * p - 1, p * p, 2 * (p * p - 1), 37]) if op == "pow" else None)
                                 yield dict(opt=opt, p=p, d=2, mods=None, seq=[[op, x, arg, m1], [op, x, arg, m2]])
                         yield dict(opt=opt, p=p, d=2, mods=None, seq=[["inv", [0, 1], None, m1], ["inv", [0, 1], None, m2]])
+                        yield dict(opt=opt, p=p, d=2, mods=None, seq=[["inv", [0, 0], None, m1], ["intops", [1, 1], 0, m1], ["intops", [0, 1], p, m2],
+                                                                      ["intops", [1, 0], 2 * p, m1], ["intops", [1, 1], -1, m2]])
             # degree 12 over small primes and the real fields
             for p, fs in irr12.items():
                 for f in fs:
@@ -258,6 +260,17 @@ class FieldFamily:
                     if opt:
                         for e in ([2, 0, 1] + [0] * 9, [0, 0, 2, 0, 0, 1] + [0] * 6, [0] * 12, [0] * 11 + [1], [2] + [0] * 10 + [1]):
                             yield dict(opt=opt, p=p, d=12, mods=f[:12], seq=[["sgn0", [c % p for c in e], None]])
+            # elements built from unreduced representatives (p itself, multiples, negatives); aliasing; sgn0 after arithmetic
+            for cname, p in list(REAL.items()) + [("small", 7)]:
+                for d in (1, 2, 12):
+                    mods = REAL_MODS[(cname, d)] if (cname != "small" and d > 1) else ([] if d == 1 else (small2[7][2] if d == 2 else irr12[7][0][:12]))
+                    reps = [[p] + [1] * (d - 1), [0] * (d - 1) + [p], [p + 1] + [2 * p] * (d - 1), [-p] + [-1] * (d - 1), [rng.randrange(p)] * d]
+                    for x in reps:
+                        y = [rng.randrange(p) for _ in range(d)]
+                        seq = [["construct", x, None], ["alias", x, y]]
+                        if opt:
+                            seq.append(["sgn0_history", x, y])
+                        yield dict(opt=opt, p=p, d=d, mods=mods, seq=seq)
             for cname, p in REAL.items():
                 for d in (2, 12):
                     mods = REAL_MODS[(cname, d)]
@@ -322,6 +335,16 @@ class FieldFamily:
                         bad = expect(label + f" (k = {k})", got, want)
                         if bad:
                             return bad
+                    if d == 1:
+                        # comparisons with an int operand: the canonical representative against the integer AS GIVEN (both files)
+                        n_ = x[0] % p
+                        cmp = [("x == k", X == k, n_ == k), ("x != k", X != k, n_ != k), ("x < k", X < k, n_ < k), ("x <= k", X <= k, n_ <= k),
+                               ("x > k", X > k, n_ > k), ("x >= k", X >= k, n_ >= k), ("k == x", k == X, n_ == k), ("k < x", k < X, k < n_),
+                               ("k >= x", k >= X, k >= n_)]
+                        for label, got, want in cmp:
+                            if got is not want:
+                                return dict(why=f"{label} (k = {k}) over GF({p}): comparison with an int operand is not the comparison of the "
+                                                "canonical representative with the integer as given", observed=repr(got), expected=want, step=step)
                 elif op == "pow":
                     bad = expect(f"x ** {arg}", X ** arg, model_op("pow", p, f, x, arg, d))
                     if bad:
@@ -332,6 +355,38 @@ class FieldFamily:
                     bad = expect("x.inv()", X.inv(), model_op("inv", p, f, x, None, d))
                     if bad:
                         return bad
+                elif op == "construct":
+                    want = [c % p for c in x]
+                    if coeffs(X) != want:
+                        return dict(why=f"constructor over GF({p}) does not store the canonical representatives", observed=coeffs(X), expected=want, step=step)
+                    Z_ = cls(want[0]) if d == 1 else cls(want)
+                    if not (X == Z_) or (X != Z_):
+                        return dict(why="element built from an unreduced representative differs from the canonical element", observed=coeffs(X), step=step)
+                    if opt and int(X.sgn0) != rfc_sgn0(want):
+                        return dict(why="sgn0 of an element built from an unreduced representative", observed=int(X.sgn0), expected=rfc_sgn0(want), step=step)
+                elif op == "alias":
+                    # augmented assignment must rebind, never mutate the object other names refer to
+                    Y = cls(arg[0]) if d == 1 else cls(list(arg))
+                    before_x, before_y = coeffs(X), coeffs(Y)
+                    for label, fn_ in (("+=", lambda a, b: a.__iadd__(b) if hasattr(a, "__iadd__") else a + b),
+                                       ("-=", lambda a, b: a.__isub__(b) if hasattr(a, "__isub__") else a - b),
+                                       ("*=", lambda a, b: a.__imul__(b) if hasattr(a, "__imul__") else a * b)):
+                        acc = X
+                        acc = fn_(acc, Y)
+                        if coeffs(X) != before_x or coeffs(Y) != before_y:
+                            return dict(why=f"`acc {label} y` mutated an operand in place (other references to it see the change)",
+                                        observed=[coeffs(X), coeffs(Y)], expected=[before_x, before_y], step=step)
+                    if d > 1:
+                        Xi = X.inv()
+                        if coeffs(X) != before_x:
+                            return dict(why="inv() mutated its receiver", observed=coeffs(X), expected=before_x, step=step)
+                elif op == "sgn0_history":
+                    Y = cls(arg[0]) if d == 1 else cls(list(arg))
+                    _ = X.sgn0, Y.sgn0          # fill the caches first
+                    for label, R_ in (("x + y", X + Y), ("x - y", X - Y), ("y - x", Y - X), ("-x", -X), ("x * y", X * Y), ("x * 1", X * 1)):
+                        if int(R_.sgn0) != rfc_sgn0(coeffs(R_)):
+                            return dict(why=f"sgn0({label}) after x.sgn0 was read differs from RFC 9380 (stale cached value)",
+                                        observed=int(R_.sgn0), expected=rfc_sgn0(coeffs(R_)), step=step)
                 elif op == "sgn0":
                     got = X.sgn0
                     want = rfc_sgn0([c % p for c in x])
